@@ -19,7 +19,53 @@ def attach(run):
     if cl & {"C05", "C06", "C11.d"}:
         run.monitor = True
         mons.append(ScheduleMonitor(run))
+    if cl & {"C10.b", "C10.c"} and run.plan.get("supply_targets") and run.adapter.name in ("td3", "td3_lap"):
+        mons.append(TargetActionMonitor(run))
     return mons
+
+
+class TargetActionMonitor:
+    """C10.b/c: smoothed target actions, read from the action columns of the target
+    critic's probe input, lie in the box and stay within noise_clip * half range of the
+    target policy's own output on the same rows."""
+
+    def __init__(self, run):
+        self.run = run
+        probe(run.comps["q_target"], "qt", run.recorder)
+        probe(run.comps["policy_target"], "pt", run.recorder)
+
+    def finish(self):
+        run = self.run
+        recs = getattr(run, "other_records", []) + [r for r in run.recorder.take() if r[0] != "acting"]
+        env = run.env
+        od = env.obs_dim
+        lo, hi = env.action_space.low.astype(np.float64), env.action_space.high.astype(np.float64)
+        half = (hi - lo) / 2.0
+        clip = run.plan["cfg"]["noise_clip"]
+        last_pt = None
+        for tag, args, out in recs:
+            if tag == "pt" and args and args[0].ndim == 2:
+                last_pt = (args[0], np.asarray(out))
+            elif tag == "qt" and args and args[0].ndim == 2 and args[0].shape[1] == od + lo.size:
+                x = np.asarray(args[0], dtype=np.float64)
+                a = x[:, od:]
+                if np.any(a < lo) or np.any(a > hi) or not np.all(np.isfinite(a)):
+                    run.V("C10.b", f"smoothed target action outside [{lo}, {hi}]: min {a.min(0)} max {a.max(0)}")
+                    return
+                run.res.probe("target_actions_in_bounds", a.shape[0])
+                if np.any(a == lo) or np.any(a == hi):
+                    run.res.probe("target_action_on_bound")
+                if last_pt is not None and last_pt[0].shape == x[:, :od].shape and np.array_equal(last_pt[0].astype(np.float64), x[:, :od]):
+                    d = np.abs(a - last_pt[1].astype(np.float64))
+                    bound = clip * half * (1 + 1e-6) + 1e-7 * np.maximum(np.abs(lo), np.abs(hi))
+                    if np.any(d > bound):
+                        run.V("C10.c", f"target-smoothing perturbation {d.max(0)} exceeds noise_clip*half range = {clip}*{half}")
+                        return
+                    run.res.probe("smoothing_within_noise_clip", a.shape[0])
+                    if clip > 0 and np.any(d >= 0.999 * clip * half):
+                        run.res.probe("smoothing_noise_clipped")
+                else:
+                    run.res.unchecked += 1
 
 
 # ----------------------------------------------------------------------------
@@ -130,7 +176,9 @@ class ActMonitor:
     def check(self, env, action):
         run = self.run
         cl = run.cl
-        recs = [r for r in run.recorder.take() if r[0] == "acting"]
+        allrecs = run.recorder.take()
+        run.other_records = getattr(run, "other_records", []) + [r for r in allrecs if r[0] != "acting"]
+        recs = [r for r in allrecs if r[0] == "acting"]
         sampled = env.sample_since_step
         a = np.asarray(action)
         k = run.iter_k
@@ -158,20 +206,35 @@ class ActMonitor:
                     run.res.probe("sampled_action_passed_through")
             return
         # policy-driven step
-        unb = [r for r in recs if r[1] and r[1][0].ndim == 1]
-        if "C01.c" in cl and self.mod is not None:
+        custom = getattr(run.adapter, "acting_obs", None)
+        if custom is not None:
+            unb = [r for r in recs if r[1]]
+        else:
+            unb = [r for r in recs if r[1] and r[1][0].ndim == 1]
             if not unb:
-                if recs:
-                    unb = [r for r in recs if r[1] and r[1][0].ndim == 2 and r[1][0].shape[0] == 1]
+                unb = [r for r in recs if r[1] and r[1][0].ndim == 2 and r[1][0].shape[0] == 1]
+        if custom is not None and unb and "C10.d" in cl:
+            lo, hi = env.action_space.low, env.action_space.high
+            for r in unb:
+                cand = np.asarray(r[1][1])
+                if np.any(cand < lo) or np.any(cand > hi) or not np.all(np.isfinite(cand)):
+                    run.V("C10.d", f"step {k}: a planner candidate lies outside [{lo}, {hi}]: min {cand.min(axis=(0, 1))} max {cand.max(axis=(0, 1))}")
+                    break
+            else:
+                run.res.probe("planner_candidates_in_bounds", sum(np.asarray(r[1][1]).shape[0] for r in unb))
+        if "C01.c" in cl and (self.mod is not None or custom is not None):
             if not unb:
                 run.res.unchecked += 1
             else:
-                g = obs_gid(unb[-1][1][0].reshape(-1))
+                o = custom(unb[-1]) if custom is not None else unb[-1][1][0].reshape(-1)
+                g = None if isinstance(o, str) else obs_gid(np.asarray(o).reshape(-1))
                 if g != env.cur_gid:
                     what = "a stale observation" if g is not None else "a non-observation"
                     run.V("C01.c", f"step {k}: the acting policy was evaluated on {what} (#{g}) while the environment's current observation is #{env.cur_gid}")
                 else:
                     run.res.probe("acting_on_current_obs")
+        if custom is not None:
+            return
         if unb and "C13.a" in cl and env.discrete:
             q = np.asarray(unb[-1][2]).reshape(-1)
             if q[int(a)] < q.max() - 1e-6 * (1 + abs(q.max())):
@@ -226,13 +289,11 @@ class BudgetMonitor:
                     run.V("C11.b", f"stopped after {c['episodes']} episodes / {ex} steps although total_episodes={E} and budget {budget} were not reached")
                 elif c["episodes"] == E:
                     run.res.fault("episode_limit_exit")
-                    last = run.env.steps()[-1]
-                    if not (last["term"] or last["trunc"]):
+                    if not c["last_done"]:
                         run.V("C11.b", f"a step was executed after the {E}-th episode had finished")
             if ex == budget and budget > 0:
                 run.res.fault("budget_exit")
-                last = run.env.steps()[-1]
-                if last["term"] or last["trunc"]:
+                if c["last_done"]:
                     run.res.fault("episode_end_on_last_budgeted_step")
             if budget == 0:
                 run.res.fault("zero_budget")
@@ -299,13 +360,26 @@ class ScheduleMonitor:
         # group snapshots into iterations: a ("step",) snapshot opens iteration k
         idx = [j for j, s in enumerate(snaps) if s.label[0] == "step"]
         # anything between a ("call",) snapshot and the first step: reset + acting only
+        uba = getattr(ad, "update_before_act", False)
         for j in range(len(snaps) - 1):
             a, b = snaps[j], snaps[j + 1]
-            if a.label[0] in ("call", "reset", "return") or (a.label[0] == "step" and False):
+            if a.label[0] in ("call", "reset") and not uba:
                 if b.label[0] in ("step", "reset", "call"):
                     ch = changed_from(a, b)
-                    if ch and a.label[0] != "return":
-                        self.report_frame(f"between {a.label[0]} and {b.label[0]} (no update is scheduled while resetting / acting)", ch, set(), a.k)
+                    if ch:
+                        self.report_frame(f"between {a.label[0]} and {b.label[0]} (no update is scheduled while resetting / acting)", ch, set(), b.k if b.k is not None else a.k)
+        if uba:
+            # interval from the call to the first env.step: the update of loop iteration `start`
+            first = [j for j, s in enumerate(snaps) if s.label[0] == "call"]
+            for j in first:
+                nxt = [m for m in range(j + 1, len(snaps)) if snaps[m].label[0] == "step"]
+                if nxt:
+                    seg = snaps[j:nxt[0] + 1]
+                    k0 = snaps[nxt[0]].k - 1
+                    exp = ad.expect(run, k0, es)
+                    markers = [m for m, s in enumerate(seg) if s.label[0] == "marker"]
+                    if run.logger is not None:
+                        self.check_markers(seg, markers, exp, k0)
         for n, j in enumerate(idx):
             k = snaps[j].k
             end = idx[n + 1] if n + 1 < len(idx) else len(snaps)
@@ -315,8 +389,26 @@ class ScheduleMonitor:
             cut = [m for m, s in enumerate(seg) if s.label[0] == "call" and m > 0]
             if cut:
                 seg = seg[:cut[0]]
-            exp = ad.expect(run, k, es)
+            if hasattr(ad, "start_epoch") and (es["epoch"] is None or self.is_call_start(j)):
+                es["epoch"] = ad.start_epoch(run, self.call_start(j))
             markers = [m for m, s in enumerate(seg) if s.label[0] == "marker"]
+            if getattr(ad, "dynamic_markers", False) and run.logger is not None and run.plan["cfg"].get("use_checkpoints", True):
+                exp = []
+                bad = False
+                for m in markers:
+                    r = ad.expect_marker(run, k, seg[m].label[1], es)
+                    if r is None:
+                        bad = True
+                        break
+                    exp.append((seg[m].label[1], r[0], r[1]))
+                if bad:
+                    clause = "C11.d" if "C11.d" in run.cl else "C05"
+                    run.V(clause, f"iteration {k}: update event '{seg[m].label[1]}' before the documented warm-up condition was met")
+                    continue
+            else:
+                exp = ad.expect(run, k, es)
+                if getattr(ad, "dynamic_markers", False) and exp:
+                    es["epoch"] += len(exp)
             have_log = run.logger is not None
             if have_log and any(e[0] is not None for e in exp) or (have_log and markers):
                 self.check_markers(seg, markers, exp, k)
@@ -335,6 +427,8 @@ class ScheduleMonitor:
             changed_ever |= changed_from(seg[0], seg[-1])
             if not ad.warmup_done(run, k) and len(seg) > 1:
                 run.res.probe("warmup_iterations_observed")
+        if "C06" in cl:
+            self.check_no_shared_storage()
         # C05.e each trained component changed at least once when updates were scheduled
         if "C05" in cl and expected_ever:
             dead = {c for c in expected_ever if c in snaps[-1].leaves and c not in changed_ever
@@ -343,6 +437,43 @@ class ScheduleMonitor:
             if dead:
                 run.res.probe("components_never_changed", len(dead))
                 run.res.extra.setdefault("never_changed", sorted(dead))
+
+    def check_no_shared_storage(self):
+        """C06.e: a target shares no nnx.Variable with its online network."""
+        from flax import nnx
+
+        run = self.run
+        comps = run.all_comps()
+
+        def var_ids(m):
+            try:
+                return {id(v) for _, v in nnx.iter_graph(m) if isinstance(v, nnx.Variable)}
+            except Exception:
+                return set()
+
+        for tgt, src in getattr(run.adapter, "target_pairs", ()):
+            if comps.get(tgt) is None or comps.get(src) is None:
+                continue
+            if comps[tgt] is comps[src] or (var_ids(comps[tgt]) & var_ids(comps[src])):
+                run.V("C06.e", f"'{tgt}' shares parameter storage with '{src}' (same nnx.Variable objects)")
+            else:
+                run.res.probe("target_storage_distinct")
+
+    def call_start(self, j):
+        """global_step of the call that snapshot index j belongs to."""
+        for m in range(j, -1, -1):
+            if self.run.snaps[m].label[0] == "call":
+                return self.run.snaps[m].k
+        return 0
+
+    def is_call_start(self, j):
+        """True iff snapshot j is the first ("step",) snapshot after a ("call",) one."""
+        for m in range(j - 1, -1, -1):
+            if self.run.snaps[m].label[0] == "step":
+                return False
+            if self.run.snaps[m].label[0] == "call":
+                return True
+        return False
 
     def report_frame(self, where, extra, allowed, k):
         run = self.run
@@ -406,6 +537,10 @@ class ScheduleMonitor:
             if sa is None or sb is None:
                 continue
             n_exp = getattr(run.adapter, "opt_steps_per_update", lambda r, n: 1)(run, name)
+            if n_exp is None:
+                if name not in allowed and sb != sa:
+                    run.V("C05", f"iteration {k}: optimiser '{name}' stepped although its module is not scheduled")
+                continue
             if name in allowed:
                 if sb - sa != n_exp:
                     run.V("C05", f"iteration {k}: optimiser '{name}' advanced by {sb - sa} steps in one documented update (expected {n_exp})")
